@@ -1,10 +1,11 @@
 /*
-	This file supports the keyspace for the keyvalue data type.
+This file supports the keyspace for the keyvalue data type.
 */
 package neuronjson
 
 import (
 	"fmt"
+	"strings"
 
 	"github.com/janelia-flyem/dvid/datastore"
 	"github.com/janelia-flyem/dvid/storage"
@@ -52,6 +53,11 @@ func (d *Data) DescribeTKeyClass(tkc storage.TKeyClass) string {
 
 // NewTKey returns a TKey for the annotation kv pairs.
 func NewTKey(key string) (storage.TKey, error) {
+	// The stored form ends with a zero byte and versions of a key are found by byte prefix, so a key
+	// holding a zero byte would make a shorter key a prefix of it.
+	if strings.IndexByte(key, 0) >= 0 {
+		return nil, fmt.Errorf("key %q contains a zero byte", key)
+	}
 	return storage.NewTKey(keyAnnotation, append([]byte(key), 0)), nil
 }
 
